@@ -137,7 +137,7 @@ def run(ctx, args):
     return common.finish(
         ctx, level="model_checking", evaluations=len(events), distinct_nontrivial=long_,
         rule=f"{nreq} requests ({len(SOURCES)} sources sharing names: same struct name with different fields, overloads, an import, vectors, wasm-able functions; options plain / "
-             f"optimize / wasm); CompileHistory (enumeration mode) generates all {want} sequences of length <= {maxlen}" + (" plus 120 seeded sequences of length 3" if quick else "") +
+             f"optimize / wasm); CompileHistory (enumeration mode) generates all {want} sequences of length <= {maxlen}" + (" plus 120 seeded sequences of length 3" if quick else " (those of length <= 2 and a seeded sample of 2500 of length 3 are replayed)") +
              f"; each is replayed in a fresh process under hash seeds {seeds_long} (single requests: {seeds_single}); {len(events)} recorded events are consumed by "
              "CompileHistory in trace mode: one digest per request across all processes, positions and hash seeds. distinct_nontrivial = histories with at least two requests.",
         samples=[{"history": [REQUESTS[r - 1][0] + str(REQUESTS[r - 1][1]) for r in h]} for h in hists[20::max(1, len(hists) // 3)][:3]] + [{"event": events[5]}],
